@@ -1,7 +1,152 @@
-/- Driver entry for property C13: one request payload in, one canonical response line out. -/
-import Molli.Util.Basic
-namespace Molli.Driver.C13
+/-
+Driver entry for property C13 (model: Molli.Model.Cdxml).
 
-def handle (_payload : String) : String := "err:not-implemented"
+  frag <F> <F> ...         fragments in post-order (nested before the node holding them), the LAST one is parsed.
+                           F = `<node>;<node>;...|<bond>;<bond>;...`  (an empty list is the empty string)
+                           node = 13 comma separated fields id,Element,AtomNumber,Isotope,Charge,Radical,NodeType,
+                                  ExternalConnectionNum,GenericNickname,text of ./t/s,NumHydrogens,Attachments,nested
+                                  each raw string as `=<hex of utf-8>` or `~` (absent); nested = decimal index or `~`
+                           bond = B,E,Order,Display
+      → `ok atoms=<z:iso:label:atype:charge:spin:implH;...> bonds=<i-j:btype:p/q;...> charge=<c> mult=<m> ap=<i,...>`
+        or `err:syntax`
+  resolve <frags> <labels> frags = `id,x,y;...`, labels = `<keyhex>,x,y,<sibling id or ~>;...`, coordinates `p/q`
+      → `<keyhex>><id or !>;...`
+  orient <eps> <quad> ...  quad = `x,y,z|x,y,z|x,y,z|x,y,z` (centre and three neighbours) → `+`, `-` or `0` per quad
+-/
+import Molli.Util.Basic
+import Molli.Model.Cdxml
+namespace Molli.Driver.C13
+open Molli.Util Molli.Model.Cdxml
+
+def decodeStr (tok : String) : Option (Option String) :=
+  if tok == "~" then some none
+  else if tok.startsWith "=" then
+    match bytesOfHexChars (tok.drop 1).toString.toList with
+    | some bs => (String.fromUTF8? (ByteArray.mk bs.toArray)).map some
+    | none => none
+  else none
+
+def encodeStr : Option String → String
+  | none => "~"
+  | some s => "=" ++ hexOfBytes s.toUTF8.toList
+
+def parseRat (s : String) : Option Rat :=
+  match s.splitOn "/" with
+  | [p] => p.toInt?.map (fun n => (n : Rat))
+  | [p, q] =>
+    match p.toInt?, q.toNat? with
+    | some n, some d => if d == 0 then none else some (mkRat n d)
+    | _, _ => none
+  | _ => none
+
+def ratStr (r : Rat) : String := s!"{r.num}/{r.den}"
+
+def items (s : String) (sep : String) : List String := if s.isEmpty then [] else s.splitOn sep
+
+def parseNode (s : String) : Option RawNode :=
+  match s.splitOn "," with
+  | [a, b, c, d, e, f, g, h, i, j, k, l, m] =>
+    match decodeStr a, decodeStr b, decodeStr c, decodeStr d, decodeStr e, decodeStr f, decodeStr g,
+          decodeStr h, decodeStr i, decodeStr j, decodeStr k, decodeStr l with
+    | some a, some b, some c, some d, some e, some f, some g, some h, some i, some j, some k, some l =>
+      let nested : Option (Option Nat) := if m == "~" then some none else m.toNat?.map some
+      nested.map fun nested =>
+        { id := a, element := b, atomNumber := c, isotope := d, charge := e, radical := f, nodeType := g,
+          extNum := h, genericNickname := i, unspecText := j, numH := k, attachments := l, nested }
+    | _, _, _, _, _, _, _, _, _, _, _, _ => none
+  | _ => none
+
+def parseBond (s : String) : Option RawBond :=
+  match s.splitOn "," with
+  | [a, b, c, d] =>
+    match decodeStr a, decodeStr b, decodeStr c, decodeStr d with
+    | some a, some b, some c, some d => some { b := a, e := b, order := c, display := d }
+    | _, _, _, _ => none
+  | _ => none
+
+def parseFrag (s : String) : Option RawFrag :=
+  match s.splitOn "|" with
+  | [ns, bs] =>
+    match (items ns ";").mapM parseNode, (items bs ";").mapM parseBond with
+    | some nodes, some bonds => some { nodes, bonds }
+    | _, _ => none
+  | _ => none
+
+def optInt : Option Int → String
+  | none => "~"
+  | some i => toString i
+
+def atomStr (a : MAtom) : String :=
+  s!"{a.z}:{optInt a.isotope}:{encodeStr a.label}:{a.atype}:{a.charge}:{a.spin}:{optInt a.implicitH}"
+
+def bondStr (b : MBond) : String :=
+  s!"{min b.a1 b.a2}-{max b.a1 b.a2}:{b.btype}:{ratStr b.forder}"
+
+def listStr (l : List String) (sep : String) : String := if l.isEmpty then "-" else sep.intercalate l
+
+def molStr (m : Mol) : String :=
+  s!"ok atoms={listStr (m.atoms.map atomStr) ";"} bonds={listStr (m.bonds.map bondStr) ";"} charge={m.charge} mult={m.mult} ap={listStr (m.attachmentPoints.map toString) ","}"
+
+def parseP (x y : String) : Option P :=
+  match parseRat x, parseRat y with
+  | some x, some y => some ⟨x, y⟩
+  | _, _ => none
+
+def parseFragPos (s : String) : Option FragPos :=
+  match s.splitOn "," with
+  | [i, x, y] =>
+    match i.toNat?, parseP x y with
+    | some i, some p => some ⟨i, p⟩
+    | _, _ => none
+  | _ => none
+
+def parseLabel (s : String) : Option (String × P × Option Nat) :=
+  match s.splitOn "," with
+  | [k, x, y, sib] =>
+    let sib? : Option (Option Nat) := if sib == "~" then some none else sib.toNat?.map some
+    match parseP x y, sib? with
+    | some p, some sb => some (k, p, sb)
+    | _, _ => none
+  | _ => none
+
+def parseV3 (s : String) : Option V3 :=
+  match s.splitOn "," with
+  | [x, y, z] =>
+    match parseRat x, parseRat y, parseRat z with
+    | some x, some y, some z => some ⟨x, y, z⟩
+    | _, _, _ => none
+  | _ => none
+
+def signStr : Sign → String
+  | .pos => "+" | .neg => "-" | .zero => "0"
+
+def orientQuad (eps : Rat) (s : String) : Option String :=
+  match (s.splitOn "|").mapM parseV3 with
+  | some [c, a, b, d] => some (signStr (orient eps c a b d))
+  | _ => none
+
+def handle (payload : String) : String :=
+  match words payload with
+  | "frag" :: fs =>
+    match fs.mapM parseFrag with
+    | some frags =>
+      match parseFragment frags with
+      | some m => molStr m
+      | none => "err:syntax"
+    | none => "err:request"
+  | ["resolve", frags, labels] =>
+    match (items (if frags == "-" then "" else frags) ";").mapM parseFragPos,
+          (items (if labels == "-" then "" else labels) ";").mapM parseLabel with
+    | some fr, some ls =>
+      listStr (ls.map fun (k, p, sib) =>
+        match resolve fr sib p with
+        | some i => s!"{k}>{i}"
+        | none => s!"{k}>!") ";"
+    | _, _ => "err:request"
+  | "orient" :: eps :: quads =>
+    match parseRat eps, quads.mapM (fun q => (parseRat eps).bind (fun e => orientQuad e q)) with
+    | some _, some out => listStr out ","
+    | _, _ => "err:request"
+  | _ => "err:request"
 
 end Molli.Driver.C13
